@@ -12,16 +12,6 @@ Inductive sim : text -> text -> Prop :=
 | sim_char : forall c c' s s', ascii_lower c = ascii_lower c' -> sim s s' -> sim (c :: s) (c' :: s')
 | sim_crlf : forall s s', sim s s' -> sim (13 :: 10 :: s) (10 :: s').
 
-(* the same thing as a normal form: lower-case ASCII letters, CR LF -> LF *)
-Fixpoint fold_text (s : text) : text :=
-  match s with
-  | [] => []
-  | c :: r => match r with
-              | d :: _ => if (c =? 13) && (d =? 10) then fold_text r else ascii_lower c :: fold_text r
-              | [] => [ascii_lower c]
-              end
-  end.
-
 Definition piece := (option (N * N) * text)%type.
 Fixpoint tiling (a : N) (l : list piece) (b : N) : Prop :=
   match l with
